@@ -14,4 +14,12 @@ CHECKS = {
    technique="bounded-exhaustive input enumeration (all ordered annotation tables / all sequences in the small scope) against brute-force counting",
    text="All ordered annotation tables with <=4 rows (count/pairwise) and <=3 rows over (2 examples, 3 annotations, start 0..4, length 1..3) for spacing (gaps exactly max_distance, abutting, overlapping, nested, coincident all occur), max_distance 1..3, symmetric on/off, explicit shapes (too-small must raise), tensor/tuple/DataFrame forms; kmers on all sequences L<=6, A 2..4, k<=4 with and without scores; compared exactly with brute-force counting.",
    note="The k-mer index map is recovered from the single-occurrence calls (bijection required) because it is undocumented; spans have length >= 1."),
+ "C03": dict(level="exploration", design_ref="3/C03",
+   technique="bounded-exhaustive enumeration of (n, batch_size, n_args, output kind, model kind) with an exact-integer recording probe model",
+   text="Every n in 1..40, every batch_size in 1..n+3 (and a huge one), 0-3 extra args of different shapes, tensor/tuple/list outputs, models with BatchNorm+Dropout (training mode observable) and parameter-free models: predict's output is compared exactly with per-example eval-mode forwards; the probe records training flag, grad mode and the row ids of X and every arg in each forward call (aligned consecutive windows covering 0..n-1 in order); mismatching args must raise; inputs and model state compared before/after.",
+   note="CPU only; integer-valued weights make equality exact."),
+ "C10": dict(level="exploration", design_ref="3/C10",
+   technique="bounded-exhaustive enumeration of variant lists per example (all position subsets / coordinates / rows) against Python string edits, tensors captured with an identity model",
+   text="Batches of 1-3 sequences; deletions: every subset of <=3 positions per example independently (incl. positions inside the trimmed flank), both trim sides; insertions: every set of <=2 distinct coordinates x characters, both sides, both row orders; substitutions: every <=2 rows per example incl. duplicates, conflicts (must raise) and out-of-range rows (must raise); X and X_var reaching func are captured through predict() with an identity model and compared with string-level edits; extra args alignment and input immutability are checked.",
+   note="Non-negative indices only; insertion at coordinate len(X) may be accepted (append) or rejected."),
 }
